@@ -27,7 +27,7 @@ CLAIMS = {
             "text": "Coq theorem: K <= K' implies pointwise tighter intervals for both superadditive computers (all n, any tables holding the knowledge). Gap-function monotonicity (l1, l-inf, squared l2, binomially weighted gap) is proved in the Norms/Exploit development (C05 slice) and cited when merged; the SAM variant and the four registered gap functions are checked on every edge of the knowledge lattice (n<=3 quick, n<=4 thorough) on the implementation and against the model. Added: all gap functions are invariant under adding an additive game (ShiftProofs); same-object reveal chains incl. n = 9, 10 for the memoised computers in the correspondence.",
             "technique": "Coq proof (induction on coalition size over two solutions) + lattice-edge correspondence + gap oracles"},
     "C08": {"design_ref": "DESIGN.md 7/C08",
-            "text": "Coq theorems for EVERY computer of the registry (reference, cached, SAM approximation with any repetition count): the result is a function of the known rows only (stale unknown rows irrelevant, any game class), recomputation idempotent, reveal+un-reveal undone exactly, histories ending in the same knowledge confluent, computed states fresh. Correspondence on histories + implementation-side oracles (route independence, idempotence, undo, stale rows) for every registered computer.",
+            "text": "Coq theorems for EVERY computer of the registry (reference, cached, SAM approximation with any repetition count): the result is a function of the known rows only (stale unknown rows irrelevant, any game class), recomputation idempotent, reveal+un-reveal undone exactly, histories ending in the same knowledge confluent, computed states fresh. Correspondence on histories + implementation-side oracles (route independence, idempotence, undo, stale rows) for every registered computer. Added: revealing a coalition already pinned down by the bounds is a no-op for the superadditive computers and not for sam_apx (witness: 5-player budget game); histories through the public compute_bounds() with values of a second game, n = 9 histories, budget-game walks in the correspondence.",
             "technique": "Coq proof (fixpoint uniqueness) + history correspondence + route-independence oracle"},
     "C17": {"design_ref": "DESIGN.md 7/C17",
             "text": "Coq theorems over ALL histories of public operations (induction over the operation list): the table refines an abstract partial map coalition -> value (known iff set/revealed and not since unset/bulk-reset; known rows have lower = upper = value, Leibniz); bulk bound setters and every bound computer never alter a known row; unknown values are never returned (error / None / NaN); fresh object knows only the empty coalition; negation spec and involution. Correspondence: random histories incl. copy/negation aliasing, duplicates, malformed id lists; all getters compared after every operation; independent abstract-map oracle.",
